@@ -28,7 +28,7 @@ def fmtState (s : State Float) : String :=
   s!"state x={fmtF s.x} h={fmtF s.h} hhfac={fmtF s.hhfac} cj={b s.callJac} cd={b s.callDecomp} first={b s.first} reject={b s.reject} last={b s.last} sing={s.singular} faccon={fmtF s.faccon} dynold={fmtF s.dynold} thqold={fmtF s.thqold} hacc={fmtF s.hAcc} erracc={fmtF s.errAcc} total={s.cnt.total} acc={s.cnt.accepted} rej={s.cnt.rejected} ode={s.cnt.ode} jac={s.cnt.jac} lu={s.cnt.lu}"
 
 def fmtResult (r : Result Float) : String :=
-  s!"end {stName r.status} h={fmtF r.h} total={r.cnt.total} acc={r.cnt.accepted} rej={r.cnt.rejected} ode={r.cnt.ode} jac={r.cnt.jac} lu={r.cnt.lu}"
+  s!"end {stName r.status} h={fmtF r.h} total={r.cnt.total} acc={r.cnt.accepted} rej={r.cnt.rejected} ode={r.cnt.ode} jac={r.cnt.jac} lu={r.cnt.lu} fcalls={r.cnt.ode} jcalls={r.cnt.jac}"
 
 structure Sess where
   P : Params Float
